@@ -13,6 +13,10 @@ import FordModel.ProcPrefix
 import FordModel.Lemmas.ProcPrefix
 import FordModel.DeclLine
 import FordModel.Lemmas.DeclLine
+import FordModel.SortComp
+import FordModel.Lemmas.SortComp
+import FordModel.CharSel
+import FordModel.Lemmas.TypeSpecChar
 import FordModel.Generated.C18
 namespace Ford.C18
 open Ford Ford.Html Ford.Show Ford.Generated.C18
@@ -631,5 +635,135 @@ open Ford.ProcPrefix in
 theorem heading_argument_list_blanks :
     procArgs (chars! "( a ,b,  c )") = [chars! "a", chars! "b", chars! "c"] ∧
     procArgs (chars! "()") = [] ∧ procArgs (chars! "( )") = [] := by decide
+
+/-! ## round 6: the option `sort` and the argument list of a heading; the parameters of a character selector -/
+
+open Ford.SortComp in
+/-- obligation on the two regenerated constants ("argument list ... is textually the declaration"): the collection
+    from which `proc_line` assembles the argument list of a heading is not one of the collections that
+    `sort_components` sorts in place -/
+theorem heading_args_not_sorted : sortedCollections.contains headingArgsCollection = false := by decide
+
+open Ford.SortComp in
+/-- "argument list": for every value of the option `sort`, every entity and whatever its other collections hold, the
+    argument list of the heading after `sort_components` is the argument list before it - the calling sequence of the
+    procedure statement (`heading_argument_list`), never a sorted one -/
+theorem heading_args_any_sort_option (o : Opt) (e : Entity) :
+    headingArgs headingArgsCollection (sortComponents sortedCollections o e) = headingArgs headingArgsCollection e := by
+  unfold headingArgs
+  rw [coll_sortComponents]
+  cases keyFn o with
+  | none => rfl
+  | some k =>
+    have hn : ¬ (sortedCollections.contains headingArgsCollection = true) := by
+      intro hc; rw [heading_args_not_sorted] at hc; cases hc
+    simp only [if_neg hn]
+
+open Ford.SortComp in
+/-- the general form: whatever the table of sorted collections, a collection that is not in it keeps its order -/
+theorem sort_keeps_unlisted (tbl : List Str) (n : Str) (h : tbl.contains n = false) (o : Opt) (e : Entity) :
+    coll n (sortComponents tbl o e) = coll n e := by
+  rw [coll_sortComponents]
+  cases keyFn o with
+  | none => rfl
+  | some k =>
+    have hn : ¬ (tbl.contains n = true) := by
+      intro hc; rw [h] at hc; cases hc
+    simp only [if_neg hn]
+
+open Ford.SortComp in
+/-- "each displayed variable, argument, component ...": sorting only reorders - for every option, table and
+    collection the rows after `sort_components` are the rows before it, each exactly once and unchanged -/
+theorem sort_same_rows (tbl : List Str) (n : Str) (o : Opt) (e : Entity) :
+    (coll n (sortComponents tbl o e)).Perm (coll n e) := by
+  rw [coll_sortComponents]
+  cases keyFn o with
+  | none => exact List.Perm.refl _
+  | some k =>
+    by_cases h : tbl.contains n = true
+    · simp only [h, if_true]; exact sortK_perm k _
+    · simp only [h]; exact List.Perm.refl _
+
+open Ford.SortComp in
+/-- `sort: src` (the default) touches nothing -/
+theorem sort_src_identity (tbl : List Str) (e : Entity) : sortComponents tbl .src e = e := rfl
+
+open Ford.SortComp in
+/-- the keys of the code's SORT_KEY_FUNCTIONS (regenerated) are the options the model knows, and the one whose entry is
+    `None` is `src` -/
+theorem sort_options_known :
+    sortOptions.map (fun p => (optOf p.1, p.2)) =
+      [(some .alpha, false), (some .permission, false), (some .permissionAlpha, false), (some .type, false),
+       (some .typeAlpha, false), (some .src, true)] := by decide
+
+open Ford.SortComp in
+/-- what happens when the argument collection *is* sorted: `subroutine solve(n, matrix, info)` is headed
+    `solve(info, matrix, n)` with `sort: alpha` (the table of the code with `args` added) -/
+theorem sorted_heading_args_witness :
+    let v (nm : String) : Item := ⟨nm.toList, some "public".toList, "variable".toList, some ⟨"real".toList, [], [], []⟩, none, none⟩
+    let e : Entity := [("args".toList, [v "n", v "matrix", v "info"])]
+    headingArgs "args".toList (sortComponents ("args".toList :: sortedCollections) .alpha e)
+      = ["info".toList, "matrix".toList, "n".toList] ∧
+    headingArgs "args".toList (sortComponents sortedCollections .alpha e)
+      = ["n".toList, "matrix".toList, "info".toList] := by decide
+
+example : (Ford.SortComp.sortK (fun (p : Nat × Nat) => .int p.1) [(2, 0), (1, 1), (2, 2), (1, 3)]) = [(1, 1), (1, 3), (2, 0), (2, 2)] := by
+  decide
+
+open Ford.TypeSpec Ford.CharSel in
+/-- obligation on the regenerated branches of the loop over the parameters of a `character(...)` selector: run in
+    source order, first branch that fires, they are the loop of the hand-written model of `parse_type` - for every
+    list of parameters and every state.  (Dropping an "already set" guard changes the regenerated branches and this
+    proof no longer goes through.) -/
+theorem char_selector_chain_as_modelled (args : List Str) (len kind : Option Str) :
+    charSel charSelRules args len kind = charArgs args len kind := by
+  unfold charSelRules
+  induction args generalizing len kind with
+  | nil => simp [charSel, charArgs]
+  | cons a as ih =>
+    cases hk : kindMatch a with
+    | none =>
+      cases len <;> cases kind <;> cases hl : lenMatch a <;>
+        simp [charSel, charArgs, stepArg, fire, hl, hk, ih]
+    | some v =>
+      cases hq : hasQuote v <;> cases len <;> cases kind <;> cases hl : lenMatch a <;>
+        simp [charSel, charArgs, stepArg, fire, hl, hk, hq, ih]
+
+open Ford.TypeSpec Ford.CharSel Ford.Show in
+/-- "type, kind/length": both parameters given positionally - `character(n, k)` with `n` a digit string, a name, `*`
+    or `:` and `k` any text without blank, parenthesis, comma, `=` or quote (an integer literal `4` in particular) -
+    are stored as length `n` and kind `k`, and the type cell reads `character(kind=k, len=n)` -/
+theorem char_selector_positional (n k : Str) (h : LenVal n) (hk : ∀ c ∈ k, kindCh c = true) (hne : k ≠ []) :
+    charSel charSelRules [n, k] none none = .ok (some n, some k) ∧
+    fullType (chars! "character") k n [] [] = (chars! "character(kind=") ++ k ++ (chars! ", len=") ++ n ++ [')'] := by
+  refine ⟨?_, ?_⟩
+  · rw [char_selector_chain_as_modelled]; exact charArgs_bare_bare n k h hk
+  · have := (full_type_text (chars! "character") k n hne (lenVal_ne h)).2.2.1
+    simpa using this
+
+open Ford.TypeSpec Ford.CharSel in
+/-- ... and the spellings with keywords, in either order, give the same two fields -/
+theorem char_selector_keywords (L K n k : Str) (hL : lower L = (chars! "len")) (hK : lower K = (chars! "kind"))
+    (h : LenVal n) (hk : ∀ c ∈ k, kindCh c = true) (hne : k ≠ []) :
+    charSel charSelRules [L ++ '=' :: n, K ++ '=' :: k] none none = .ok (some n, some k) ∧
+    charSel charSelRules [K ++ '=' :: k, L ++ '=' :: n] none none = .ok (some n, some k) ∧
+    charSel charSelRules [n, K ++ '=' :: k] none none = .ok (some n, some k) := by
+  simp only [char_selector_chain_as_modelled]
+  exact ⟨charArgs_len_kind L K n k hL hK h hk hne, charArgs_kind_len L K n k hL hK h hk hne,
+         charArgs_bare_kind K n k hK h hk hne⟩
+
+open Ford.TypeSpec Ford.CharSel in
+/-- what the chain without the guards of its two regular-expression branches does to `character(10, 4)` and
+    `character(*, 4)`: the kind overwrites the length / is taken for the length, the kind is gone; the chain of the
+    code gives length and kind -/
+theorem char_selector_unguarded_witness :
+    charSel unguardedRules [chars! "10", chars! "4"] none none = .ok (some (chars! "4"), none) ∧
+    charSel unguardedRules [chars! "*", chars! "4"] none none = .ok (some (chars! "4"), none) ∧
+    charSel soundRules [chars! "10", chars! "4"] none none = .ok (some (chars! "10"), some (chars! "4")) ∧
+    charSel soundRules [chars! "*", chars! "4"] none none = .ok (some (chars! "*"), some (chars! "4")) :=
+  ⟨rfl, rfl, rfl, rfl⟩
+
+example : Ford.CharSel.charSel charSelRules [chars! "len=3", chars! "kind=ck"] none none
+    = .ok (some (chars! "3"), some (chars! "ck")) := rfl
 
 end Ford.C18
